@@ -9,7 +9,7 @@ import struct as _struct
 import types
 import z3
 
-from .sym import (V, VInt, VBool, VStr, VBytes, VFloat, VNone, NONE, VTuple, VList, VSeq, VMap,
+from .sym import (V, VInt, VBool, VStr, VBytes, VFloat, VNone, NONE, VTuple, VList, VSeq, VMap, VSet,
                   VDictLit, VConc, VInst, VOpaque, VFunc, VBoundExt, VUnion, VUnknown,
                   lift, concrete_of, zand, zor, znot, mk_str, TOpt)
 
@@ -62,6 +62,9 @@ class Models(object):
         return None
 
     def opaque_attr(self, ex, path, obj, name):
+        return None
+
+    def value_attr(self, ex, path, obj, name):
         return None
 
     def opaque_call(self, ex, path, f, args, kw):
@@ -236,7 +239,7 @@ class Models(object):
         if obj is dict and not args and not kw:
             return [(path, ex.new_dict(path, []))]
         if obj is set and not args:
-            raise Unsupported('set()')
+            return [(path, VSet(z3.K(z3.StringSort(), z3.BoolVal(False)), z3.IntVal(0)))]
         if obj is getattr:
             ok, nm = concrete_of(args[1])
             if ok:
@@ -321,6 +324,8 @@ class Models(object):
             return [(path, VInt(len(path.heap[('dict', v.did)])))]
         if isinstance(v, VMap) and v.keys is not None:
             return [(path, VInt(z3.Length(v.keys.t)))]
+        if isinstance(v, VSet):
+            return [(path, VInt(v.n))]
         if isinstance(v, VConc):
             try:
                 return [(path, VInt(len(v.obj)))]
@@ -655,6 +660,19 @@ class Models(object):
             return self.map_method(ex, path, recv, name, args, kw)
         if isinstance(recv, VSeq):
             return self.seq_method(ex, path, recv, name, args, kw)
+        if isinstance(recv, VSet):
+            return self.set_method(ex, path, recv, name, args, kw)
+        return None
+
+    def set_method(self, ex, path, sv, name, args, kw):
+        from .exec import Unsupported
+        if name == 'add' and isinstance(args[0], VStr):
+            if sv.origin is None:
+                raise Unsupported('mutation of a temporary set')
+            x = args[0].t
+            new = VSet(z3.Store(sv.t, x, z3.BoolVal(True)), z3.simplify(sv.n + z3.If(z3.Select(sv.t, x), 0, 1)))
+            path.heap[sv.origin] = new
+            return [(path, NONE)]
         return None
 
     def seq_method(self, ex, path, sv, name, args, kw):
@@ -825,6 +843,9 @@ class Models(object):
             return [(path, mk(r))]
         if name == 'format':
             ok, c = concrete_of(s)
+            if ok and c.count('{}') == 1 and c.count('{') == 1 and len(args) == 1 and isinstance(args[0], VStr) and not kw:
+                pre_, post_ = c.split('{}')
+                return [(path, VStr(z3.Concat(mk_str(pre_), args[0].t, mk_str(post_))))]
             r = VStr(ex.fresh_str(path, 'format'))
             if ok and c.count('{}') == 1 and len(args) == 1 and isinstance(args[0], VInt) and not kw:
                 # keep the template so struct.pack can interpret '{}s'
